@@ -6,7 +6,7 @@
    all valid derived tables. *)
 From Coq Require Import List ZArith Bool.
 From LJT Require Import gen.GenLimits model.Huff model.DMarkers
-  proofs.DMarkersProofs proofs.DMarkersScanProofs proofs.DMarkersBlockProofs proofs.DMarkersTop.
+  proofs.DMarkersProofs proofs.DMarkersScanProofs proofs.DMarkersBlockProofs proofs.DMarkersFastProofs proofs.DMarkersTop.
 Import ListNotations.
 Local Open Scope Z_scope.
 
@@ -100,6 +100,31 @@ Theorem C01_decode_block_index_safe : forall dct act bs, dtbl_ok dct -> dtbl_ok 
   end.
 Proof. exact decode_block_spec. Qed.
 Print Assumptions C01_decode_block_index_safe.
+
+(* (4b) the unchecked fast path: decode_mcu uses decode_mcu_fast only when BUFSIZE source bytes per
+   block are available.  For tables made by jpeg_make_d_derived_tbl from well-formed DHT slots and
+   EVERY bit string one block consumes at most 64 x (17 + 15) bits, and the generated BUFSIZE covers
+   twice that many bytes (every FF data byte is followed by a stuffed 00). *)
+Theorem C01_fast_path_threshold :
+  (forall dbits dvals abits avals dct act bs,
+     htbl_ok (dbits, dvals) -> htbl_ok (abits, avals) ->
+     make_d_derived dbits dvals true 15 = Some dct -> make_d_derived abits avals false 15 = Some act ->
+     match decode_block dct act bs with
+     | BlkDone _ rest => (length rest <= length bs)%nat /\
+                         Z.of_nat (length bs) - Z.of_nat (length rest) <= L_DCTSIZE2 * 32
+     | _ => True
+     end) /\
+  2 * ((L_DCTSIZE2 * 32) / 8) <= L_BUFSIZE.
+Proof. exact (conj block_bits_bound_ fast_path_threshold_). Qed.
+Print Assumptions C01_fast_path_threshold.
+
+(* every per-datastream state member of the marker reader and of the input controller (inventories
+   read from jpegint.h / jdmarker.c / jdinput.c) is assigned by reset_marker_reader /
+   reset_input_controller, except next_restart_num (set by get_sos) and bytes_read (written with
+   cur_marker, read only under cur_marker != NULL) -- both backed by guards in GenLimits.guards *)
+Theorem C01_reset_covers_state : reset_covers_state = true.
+Proof. exact reset_covers_state_. Qed.
+Print Assumptions C01_reset_covers_state.
 
 (* (5) with the end-of-input rule of the memory source (insert FF D9) the marker level of the whole
    stream reaches EOI or an error after at most length/2 + 3 scans, whatever the entropy
